@@ -480,3 +480,82 @@ prop('C11', ['Clafer-Tree', 'Clafer-Ctc', 'Clafer-Attr'], name_classes=('space',
      attr_names_too=True,
      assumptions=['both ! and not are accepted as Clafer negation', 'identifiers may be bare words or double-quoted strings'],
      trusted=['harness/parse_export.py (syntax of the Clafer subset only)'])(export_script(['clafer']))
+
+
+# ---------------------------------------------------------------------------
+# Independent reference documents (C04, C09)
+def pick_pool(cases, wanted_tags, size):
+    """Reference models: greedy maximum coverage of the wanted tags (ties: smaller model, then
+    generation order), then the largest remaining models."""
+    models = [c for cid, c in cases if 'model' in c and 'ch' not in c]
+    tagsets = [(set(case_tags(c)) | ctc_tags(c)) & set(wanted_tags) for c in models]
+    pool, chosen, covered = [], set(), set()
+    while len(pool) < size:
+        best, gain = None, 0
+        for i, ts in enumerate(tagsets):
+            if i in chosen:
+                continue
+            g = len(ts - covered)
+            if g > gain or (g == gain and g > 0 and len(models[i]['model']['feats']) < len(models[best]['model']['feats'])):
+                best, gain = i, g
+        if best is None or gain == 0:
+            break
+        chosen.add(best)
+        covered |= tagsets[best]
+        pool.append(models[best])
+    rest = sorted((i for i in range(len(models)) if i not in chosen),
+                  key=lambda i: (-len(tagsets[i]), -len(models[i]['model']['feats']), i))
+    for i in rest:
+        if len(pool) >= size:
+            break
+        pool.append(models[i])
+    missing = set(wanted_tags) - covered
+    if missing:
+        raise RuntimeError('reference pool does not cover: %s' % sorted(missing))
+    return pool
+
+
+def ctc_tags(c):
+    tags = set()
+    for k in c['model']['ctcs']:
+        ast_tags(k['ast'], tags)
+    for f in c['model']['feats']:
+        for a in f['attrs']:
+            tags.add('attrval:' + a['val'].split(':')[0])
+    return tags
+
+
+UVL_WANTED = ['typed', 'fcard', 'star', 'abstract', 'cardinality', 'mutex', 'alternative', 'or', 'mandatory', 'optional',
+              'multi-rel-parent', 'attrval:n', 'attrval:b', 'attrval:i', 'attrval:d', 'attrval:s', 'attrval:l', 'attrval:m',
+              'op:NOT', 'op:AND', 'op:OR', 'op:IMPLIES', 'op:EQUIVALENCE', 'op:EQUALS', 'op:LOWER', 'op:GREATER',
+              'op:LOWER_EQUALS', 'op:GREATER_EQUALS', 'op:NOT_EQUALS', 'op:ADD', 'op:SUB', 'op:MUL', 'op:DIV', 'op:SUM', 'op:AVG']
+
+
+def prepare_surface(wanted, size):
+    def prep(cases, tier, seed):
+        pool = pick_pool(cases, wanted, size)
+        out = []
+        for cid, c in cases:
+            if 'ch' not in c:
+                continue
+            m = pool[c['model'] - 1]
+            out.append((cid, {'hist': m['hist'], 'model': m['model'], 'ch': c['ch'], 'broken': c['broken'],
+                              'poolidx': c['model']}))
+        return out
+    return prep
+
+
+def readref_script(fmt):
+    def script(case, naming, tier, seed):
+        ev, text = formats.readref_event(fmt, case['model'], naming, case['ch'], case['broken'])
+        return [ev], {'key': [case['poolidx'], case['ch'], case['broken']], 'nontrivial': True}
+    return script
+
+
+prop('C04', ['uvl-Type', 'uvl-FCard', 'uvl-Attr', 'uvl-Star', 'uvl-Abs', 'Ref-uvl-Ctc', 'Ref-uvl-Arith', 'Ref-Mix', 'Surface-uvl'],
+     name_classes=('space', 'punct', 'uvlkw', 'digit0'), naming_matters=True, prepare=prepare_surface(UVL_WANTED, 12),
+     assumptions=['the reference emitter (harness/emit_ref.py) is written from the UVL grammar and is trusted',
+                  'own-line comments and blank lines between sections are not emitted: the installed uvlparser '
+                  '(a dependency) rejects them', 'sub-expressions are always parenthesised, so the oracle never '
+                  'depends on operator precedence'],
+     trusted=['harness/emit_ref.py (reference emitter)'])(readref_script('uvl'))
